@@ -425,6 +425,14 @@ def spellings(value):
             out += [name, name.upper(), name.capitalize()]
     if 32 < value < 127 and value not in (34, 39, 92):
         out += ['"%s"' % chr(value), "'%s'" % chr(value)]
+    if value == 34:
+        out += ["'\"'"]
+    if value == 39:
+        out += ['"\'"']
+    if value == 32:
+        out += ['" "', "' '"]
+    if value == 92:
+        out += ['"\\\\"']
     if value in (9, 10, 13):
         out.append('"%s"' % {9: "\\t", 10: "\\n", 13: "\\r"}[value])
     if 0 <= value < 256:
@@ -439,7 +447,9 @@ def native_frontend(tier, seed):
     from cutplace import ranges
     rnd = random.Random(seed)
     seps = ["...", ":", "…", " ... ", " : ", " … "]
-    values = [0, 1, 9, 10, 13, 12, 11, 48, 65, 97, 122, 255, 8230, -1, -5, 1000, 2 ** 31, -(2 ** 31)]
+    values = [0, 1, 9, 10, 13, 12, 11, 48, 65, 97, 122, 255, 8230, -1, -5, 1000, 2 ** 31, -(2 ** 31),
+              # characters that mean something in the syntax, as quoted limits
+              32, 34, 35, 39, 40, 44, 45, 46, 58, 92]
     failures = []
     n = 0
     samples = []
